@@ -319,6 +319,9 @@ type EscCase struct {
 	RC      string     `json:"return_char,omitempty"`
 	// TwoLine: the device's prompts and the level patterns span two lines.
 	TwoLine bool `json:"two_line,omitempty"`
+	// Cumulus: the session is built from the shipped cumulus_linux definition (escalate "sudo su",
+	// escalate prompt ": "); Variant is asks | noask-noise | noask.
+	Cumulus bool `json:"cumulus,omitempty"`
 }
 
 // PlatCase is a platform definition whose on-open sequence writes redacted input.
@@ -413,7 +416,7 @@ func genCase(r *rand.Rand, i int) Case {
 		c.Kind = "escalate"
 		c.Password, c.Passphrase = "", ""
 		e := &EscCase{Host: hosts[r.Intn(len(hosts))], NL: []string{"\r\n", "\n"}[r.Intn(2)], Seg: genSeg(r)}
-		e.Variant = []string{"asks", "asks", "rejects", "rejects", "reasks", "grants", "refuses", "no-secondary", "interactive", "interactive-skip"}[r.Intn(10)]
+		e.Variant = []string{"asks", "asks", "rejects", "rejects", "reasks", "grants", "grants-noise", "refuses", "no-secondary", "interactive", "interactive-skip"}[r.Intn(11)]
 		e.Op = []string{"acquire", "acquire-config", "sendcommand", "sendconfig"}[r.Intn(4)]
 		e.Cmd = "show " + rs(r, "abcdefghijklmnopqrstuvwxyz", 3+r.Intn(8)) + "!"
 		e.RC = []string{"\n", "\n", "\r", "\r\n"}[r.Intn(4)]
@@ -561,6 +564,10 @@ func escDevice(host, nl, variant, deviceSecret, cmd string) *devsim.CLI {
 			return devsim.Reply{}
 		case mode == "exec" && line == "enable":
 			switch variant {
+			case "grants-noise":
+				// grants without asking, but prints - in the same read as the new prompt - a line the
+				// escalate prompt pattern accepts
+				return devsim.Reply{NewMode: "priv", NoPrompt: true, Out: []devsim.Token{devsim.E("Password: " + nl + d.Prompts["priv"])}}
 			case "grants":
 				return devsim.Reply{NewMode: "priv"}
 			case "refuses":
@@ -604,8 +611,66 @@ func hiddenCount(dev *devsim.CLI, conn *devsim.Conn, secret string) int {
 	return n
 }
 
+// runCumulus escalates through the shipped cumulus_linux platform definition. The device either asks
+// for the sudo password, or does not ask and (variant noask-noise) prints, in the same read as the
+// root prompt, a line that the definition's escalate prompt pattern ": " accepts.
+func runCumulus(c *Case, m *Monitor) session {
+	e := c.Esc
+	s := session{kind: "cumulus-" + e.Variant, nonSecret: "sudo su"}
+	nl := "\r\n"
+	user, root := "cumulus@"+e.Host+":mgmt:~$ ", "root@"+e.Host+":mgmt:/home/cumulus# "
+	secret := c10.LineOf(c.Secondary)
+	dev := &devsim.CLI{Prompts: map[string]string{"exec": user, "root": root}, Mode: "exec", NL: nl}
+	dev.Handler = func(d *devsim.CLI, mode, line string) devsim.Reply {
+		switch {
+		case mode == "exec" && line == "sudo su":
+			switch e.Variant {
+			case "noask":
+				return devsim.Reply{NewMode: "root"}
+			case "noask-noise":
+				return devsim.Reply{NewMode: "root", NoPrompt: true,
+					Out: []devsim.Token{devsim.E("sudo: unable to resolve host " + e.Host + ": Name or service not known" + nl + root)}}
+			}
+			return devsim.Reply{Ask: &devsim.Ask{Prompt: "[sudo] password for cumulus: ", Then: func(ans string) devsim.Reply {
+				if ans == secret {
+					return devsim.Reply{NewMode: "root"}
+				}
+				return devsim.Reply{Out: []devsim.Token{devsim.T("Sorry, try again." + nl)}}
+			}}}
+		case mode == "root" && line == "exit":
+			return devsim.Reply{NewMode: "exec"}
+		}
+		return devsim.Reply{}
+	}
+	conn := devsim.NewConn(dev, devsim.Config{Seg: e.Seg, KeepData: true})
+	defer conn.Abandon()
+	opts := append([]util.Option{options.WithCustomTransport(conn), options.WithAuthSecondary(c.Secondary), options.WithTimeoutOps(3 * time.Second)}, m.options(c.Level)...)
+	pl, err := platform.NewPlatform("cumulus_linux", e.Host, opts...)
+	if err != nil {
+		s.outcome = "constructor:platform:" + err.Error()
+		return s
+	}
+	nd, err := pl.GetNetworkDriver()
+	if err != nil {
+		s.outcome = "constructor:" + err.Error()
+		return s
+	}
+	if err = nd.Open(); err != nil {
+		s.outcome = "open:" + errClass(err)
+		return s
+	}
+	defer closeBounded(func() { nd.Close() })
+	err = nd.AcquirePriv("configuration")
+	s.outcome = errClass(err)
+	s.credWrites = hiddenCount(dev, conn, c.Secondary)
+	return s
+}
+
 func runEscalate(c *Case, m *Monitor) session {
 	e := c.Esc
+	if e.Cumulus {
+		return runCumulus(c, m)
+	}
 	s := session{kind: "escalate-" + e.Variant + "-" + e.Op, nonSecret: "enable"}
 	deviceSecret := c10.LineOf(c.Secondary)
 	if e.Variant == "rejects" || e.Variant == "reasks" {
@@ -902,7 +967,9 @@ func Run(mc mon.Case) mon.Result {
 			return mon.Result{Verdict: mon.Violated, Key: "c11/monitor-blind", Detail: fmt.Sprintf("session %s: %d credential writes reached the device but the logger saw only %d messages containing 'redacted' (of %d messages)",
 				s.kind, s.credWrites, redacted, len(msgs)), Events: tailMsgs()}
 		}
-		if s.nonSecret != "" && countContaining(msgs, s.nonSecret) == 0 {
+		// the session's non-secret command/user/host; a session that (under load) failed before it typed
+		// its command still shows the driver's "opening connection to host" message
+		if s.nonSecret != "" && countContaining(msgs, s.nonSecret) == 0 && countContaining(msgs, "opening connection to host") == 0 {
 			return mon.Result{Verdict: mon.Violated, Key: "c11/monitor-blind", Detail: fmt.Sprintf("session %s: no message contains the non-secret text %q (%d messages)", s.kind, s.nonSecret, len(msgs)), Events: tailMsgs()}
 		}
 	}
@@ -928,6 +995,12 @@ func Run(mc mon.Case) mon.Result {
 	}
 	if c.Esc != nil && c.Esc.Variant == "interactive-skip" {
 		obs["hidden_input_after_skipped_question"] = 1
+	}
+	if c.Esc != nil && (c.Esc.Variant == "grants-noise" || c.Esc.Variant == "noask-noise") {
+		obs["escalations_granted_with_prompt_like_noise_in_one_read"] = 1
+	}
+	if c.Esc != nil && c.Esc.Cumulus {
+		obs["escalations_through_shipped_cumulus_linux"] = 1
 	}
 	if c.Esc != nil && c.Esc.TwoLine {
 		obs["escalations_with_two_line_prompts"] = 1
@@ -1029,7 +1102,7 @@ func init() {
 			}
 			// escalations with two-line prompts, every device variant
 			k = 0
-			for _, variant := range []string{"grants", "grants", "asks", "rejects", "refuses", "interactive", "interactive-skip"} {
+			for _, variant := range []string{"grants", "grants-noise", "asks", "rejects", "refuses", "interactive", "interactive-skip"} {
 				for _, op := range []string{"acquire", "acquire-config", "sendcommand", "sendconfig"} {
 					c := Case{Kind: "escalate", Level: []string{"debug", "info", "critical", "debug"}[k%4], Family: secretFamilies[k%len(secretFamilies)]}
 					c.Secondary = decorate(r, genSecret(r, c.Family), "\n")
@@ -1039,12 +1112,15 @@ func init() {
 				}
 			}
 			// logins through the real telnet transport (loopback TCP device, three line disciplines)
-			nlo := 21
+			nlo := 28
 			if tier == "thorough" {
 				nlo = 210
 			}
 			for i := 0; i < nlo; i++ {
 				lo := c10.GenLo(r, i)
+				if i%2 == 1 && lo.QuietMS == 0 {
+					lo.QuietMS, lo.Negotiate = 600+r.Intn(1400), false // half of them on a line that is silent at first
+				}
 				c := Case{Kind: "telnet", Level: []string{"debug", "debug", "info", "critical"}[i%4], Family: secretFamilies[i%len(secretFamilies)]}
 				c.Password = decorate(r, genSecret(r, c.Family), "")
 				lo.Password = c.Password
@@ -1065,6 +1141,12 @@ func init() {
 				c.Plat = &PlatCase{Host: hosts[i%len(hosts)], DriverType: []string{"generic", "network"}[i%2], Follow: i%4 >= 2, Accept: true, Seg: genSeg(r),
 					Quiet: true, Grants: i%6 != 5}
 				cs = append(cs, mon.MkCase(fmt.Sprintf("c11/variant/%02d", i), c))
+			}
+			for i := 0; i < 9; i++ {
+				c := Case{Kind: "escalate", Level: []string{"debug", "info", "critical"}[i%3], Family: secretFamilies[i%len(secretFamilies)]}
+				c.Secondary = decorate(r, genSecret(r, c.Family), "\n")
+				c.Esc = &EscCase{Host: []string{"leaf01", "spine-2", "cl3"}[i%3], Variant: []string{"noask-noise", "noask-noise", "asks", "noask"}[i%4], Seg: genSeg(r), Cumulus: true}
+				cs = append(cs, mon.MkCase(fmt.Sprintf("c11/cumulus/%02d", i), c))
 			}
 			for i := 0; i < 9; i++ {
 				c := Case{Kind: "platform", Level: []string{"debug", "info", "critical"}[i%3], Family: secretFamilies[i%len(secretFamilies)]}
